@@ -150,6 +150,11 @@ impl MinidumpWriter {
             .map(AuxvDumpInfo::from)
             .unwrap_or_default();
 
+        // Nothing recorded while serving an earlier request may leak into this one.
+        self.memory_blocks.clear();
+        self.crashing_thread_context = CrashingThreadContext::None;
+        self.principal_mapping = None;
+
         let mut soft_errors = ErrorList::default();
 
         let mut dumper = PtraceDumper::new_report_soft_errors(
